@@ -24,6 +24,7 @@ type State struct {
 	Mem   *Term
 	Alloc *Term
 	Locks *Term // ghost: lock counts per mutex address; never havocked by abstraction
+	Ghost *Term // ghost: byte sequences written to hashers / buffers / writers (ghost.go)
 }
 
 type Edge struct {
@@ -467,6 +468,7 @@ func (tr *FnTr) mergeEdges(b *ssa.BasicBlock, edges []*Edge) (State, []Val, bool
 		st.Mem = Ite(e.St.Reach, e.St.Mem, st.Mem)
 		st.Alloc = Ite(e.St.Reach, e.St.Alloc, st.Alloc)
 		st.Locks = Ite(e.St.Reach, e.St.Locks, st.Locks)
+		st.Ghost = Ite(e.St.Reach, e.St.Ghost, st.Ghost)
 		if len(e.Phis) > 0 {
 			np := make([]Val, len(e.Phis))
 			for k := range e.Phis {
@@ -500,6 +502,7 @@ func (tr *FnTr) mergeEdges(b *ssa.BasicBlock, edges []*Edge) (State, []Val, bool
 	st.Mem = tr.vc.Def("mem_"+tag, st.Mem)
 	st.Alloc = tr.vc.Def("alloc_"+tag, st.Alloc)
 	st.Locks = tr.vc.Def("locks_"+tag, st.Locks)
+	st.Ghost = tr.vc.Def("ghost_"+tag, st.Ghost)
 	return st, phis, true
 }
 
@@ -592,7 +595,7 @@ func (tr *FnTr) addEdge(b, s *ssa.BasicBlock, reach *Term) {
 	if reach.IsFalse() {
 		return
 	}
-	e := &Edge{From: b, To: s, St: State{Reach: reach, Mem: tr.st.Mem, Alloc: tr.st.Alloc, Locks: tr.st.Locks}}
+	e := &Edge{From: b, To: s, St: State{Reach: reach, Mem: tr.st.Mem, Alloc: tr.st.Alloc, Locks: tr.st.Locks, Ghost: tr.st.Ghost}}
 	// which predecessor index?
 	idx := -1
 	for i, p := range s.Preds {
@@ -638,7 +641,7 @@ func (tr *FnTr) panicEdge(kind string, ok *Term, p token.Pos) {
 	top := tr.top
 	if top.refute && top.recovering && !tr.excMode {
 		if r := And(tr.st.Reach, Not(ok)); !r.IsFalse() {
-			top.excEdges = append(top.excEdges, excEdge{St: State{Reach: r, Mem: tr.st.Mem, Alloc: tr.st.Alloc, Locks: tr.st.Locks}})
+			top.excEdges = append(top.excEdges, excEdge{St: State{Reach: r, Mem: tr.st.Mem, Alloc: tr.st.Alloc, Locks: tr.st.Locks, Ghost: tr.st.Ghost}})
 		}
 	}
 	if top.recovering || tr.excMode || (top.ct != nil && top.ct.NoPanicCheck) {
@@ -705,8 +708,16 @@ func (tr *FnTr) procLoop(l *Loop) {
 		tr.vc.Oblige(tr.prefix+"inv.entry."+lname, labelOr(c.Label, i+1), Implies(est.Reach, g), c.Pos)
 	}
 	// 2. havoc
-	hst := State{Reach: est.Reach, Locks: est.Locks}
+	hst := State{Reach: est.Reach, Locks: est.Locks, Ghost: est.Ghost}
 	writes, allocs := tr.loopEffects(l)
+	if writes {
+		// ghost buffers may be appended to in the loop: nothing is kept about them
+		hst.Ghost = tr.vc.Fresh("ghost_"+fmt.Sprintf("loop%d", l.Ordinal), SMem)
+		// ...except its kind (hash algorithm), which never changes, and that lengths are >= 0
+		o := Sym("o!q", SInt)
+		tr.vc.Assume(Forall([]*Term{o}, And(Eq(Select(Select(hst.Ghost, o), Int(-2)), Select(Select(est.Ghost, o), Int(-2))),
+			Le(Int(0), Select(Select(hst.Ghost, o), Int(-1)))), Select(hst.Ghost, o)))
+	}
 	if !writes && !allocs {
 		hst.Mem, hst.Alloc = est.Mem, est.Alloc
 	} else {
@@ -714,6 +725,7 @@ func (tr *FnTr) procLoop(l *Loop) {
 		if allocs {
 			hst.Alloc = tr.vc.Fresh("alloc_"+lname, SInt)
 			tr.vc.Assume(Le(est.Alloc, hst.Alloc))
+			curEpoch++
 		}
 		hst.Mem = tr.havocMem(est.Mem, est.Alloc, fr.frame, allocs, lname)
 	}
@@ -958,6 +970,13 @@ func (tr *FnTr) freshVal(base string, T types.Type, alloc *Term) Val {
 // assumeTyped asserts the typing facts of a value (ranges, header shape).
 func (tr *FnTr) assumeTyped(v Val, alloc *Term) {
 	tr.vc.Assume(typingFacts(v, alloc))
+	if alloc != nil {
+		for i, lf := range layoutOf(v.T).Leaves {
+			if lf.K == LObj && !lf.Str {
+				noteObjBound(v.L[i])
+			}
+		}
+	}
 }
 
 func typingFacts(v Val, alloc *Term) *Term {
